@@ -43,6 +43,15 @@ type incompleteProcess struct {
 	Type      types.SessionType
 }
 
+// The grammar builds the list of statements back to front (appending is linear, whereas prepending
+// copies the whole list for every statement); this restores the textual order
+func reverseStatements(statements []unexpandedProcessOrFunction) []unexpandedProcessOrFunction {
+	for i, j := 0, len(statements)-1; i < j; i, j = i+1, j-1 {
+		statements[i], statements[j] = statements[j], statements[i]
+	}
+	return statements
+}
+
 func ParseString(program string) ([]*process.Process, []process.Name, *process.GlobalEnvironment, error) {
 	r := strings.NewReader(program)
 	return ParseReader(r)
